@@ -384,6 +384,18 @@ func (s *Script) OnProbe(n *simnet.Net, sink *simnet.Sink, p *refcodec.Packet, r
 		s.held[sink.ID] = append([]uint8{uint8(t)}, s.held[sink.ID]...)
 	}
 	ctx := simnet.BuildCtx{ServerSeq: 0x51515151, SackInitSeq: initSeq, SackHeld: s.held[sink.ID], TSVal: 0x22220000 + uint32(t)}
+	// a real TCP stack only SACKs segments inside the connection's window: a probe whose sequence base is not the one
+	// of the connection it is sent on gets a bare duplicate ACK
+	outOfWindow := false
+	if vi.Kind == "sack" {
+		for _, l := range n.Listeners {
+			if l.Addr.Port() == p.DstPort {
+				if base, ok := l.ConnAck[p.SrcPort]; ok && l.Spec.Enabled && base != initSeq {
+					outOfWindow = true
+				}
+			}
+		}
+	}
 	if !(has && (hs.Silent || hs.LostReply)) {
 		form := hs.Form
 		from := Router(vi.V6, sc.Flow, t)
@@ -399,6 +411,9 @@ func (s *Script) OnProbe(n *simnet.Net, sink *simnet.Sink, p *refcodec.Packet, r
 			form = vi.TEForm
 		}
 		from = parseAddr(hs.From, from)
+		if outOfWindow && atDest && strings.HasPrefix(form, "sack") {
+			form = "plainack"
+		}
 		delay := hs.DelayUs
 		if delay == 0 {
 			delay = DefaultDelayUs(t)
